@@ -208,18 +208,31 @@ Definition cell_eqb (a b : cell) : bool :=
 
 Definition int64 (z : Z) : bool := (- 2 ^ 63 <=? z) && (z <? 2 ^ 63).
 
+(* a Python str may hold lone surrogates (e.g. the Jinja literal "\ud800"); they cannot be
+   encoded as UTF-8, so a text file write and sqlite3's parameter binding raise
+   UnicodeEncodeError; json.dumps escapes them *)
+Definition is_surrogate (c : Z) : bool := (55296 <=? c) && (c <=? 57343).
+Definition encodable_text (t : text) : bool := forallb (fun c => negb (is_surrogate c)) t.
+Definition utf8_text (t : text) : result cell :=
+  if encodable_text t then Ok (CText t) else Err (Internal "UnicodeEncodeError").
+
 (* What the format's writer does with a cleaned-up value.  [is_id]: the value goes to the
    INTEGER PRIMARY KEY column of a table (only meaningful for FDb / FSql).
      txt  : f"{value}"
      csv  : csv writer: None -> "", everything else str()
      json : json.dumps (date / datetime / Decimal objects are not serialisable)
      db   : sqlite3 parameter binding + column affinity (VARCHAR(255) columns hold text,
-            the id column holds an integer); an int outside 64 bits raises OverflowError *)
+            the id column holds an integer); an int outside 64 bits raises OverflowError, a
+            string with a lone surrogate UnicodeEncodeError *)
 Definition render (f : fmt) (is_id : bool) (v : value) : result cell :=
   match f with
-  | FTxt => do t <- py_str v; Ok (CText t)
+  | FTxt => match v with
+            | VStr s => utf8_text s
+            | _ => do t <- py_str v; Ok (CText t)
+            end
   | FCsv => match v with
             | VNull => Ok (CText [])
+            | VStr s => utf8_text s
             | _ => do t <- py_str v; Ok (CText t)
             end
   | FJson => match v with
@@ -237,7 +250,7 @@ Definition render (f : fmt) (is_id : bool) (v : value) : result cell :=
                 else Err (Internal "OverflowError")
     | VBool b => let z := if b then 1 else 0 in
                  Ok (if is_id then CNum z else CText (dec_text z))
-    | VStr s => if is_id then Err Unsupported else Ok (CText s)
+    | VStr s => if is_id then Err Unsupported else utf8_text s
     | VDate y m d => if is_id then Err Unsupported else Ok (CText (iso_date y m d))
     | VDateTime y m d hh mi ss us off =>
       if is_id then Err Unsupported else Ok (CText (str_dt y m d hh mi ss us off))
